@@ -113,6 +113,58 @@ def step (line : String) : String :=
     match parseFilterVal f, parseParmsVal p, parseInflate i, bytesOfHex h with
     | some f, some p, some tab, some d => showRes (streamDecodeRaw (lookupInflate tab) f p d)
     | _, _, _, _ => "bad-op"
+  | ["getfilters", fa, pa] =>
+    -- fa / pa: "-" or `keyhex=<FilterVal spec>` / `keyhex=<ParmsVal spec>` separated by ';'
+    let parseAttrs {α : Type} (s : String) (pv : String → Option α) : Option (List (Bytes × α)) :=
+      if s == "-" then some []
+      else (s.splitOn ";").mapM (fun e =>
+        match e.splitOn "=" with
+        | [k, v] => match bytesOfHex k, pv v with
+          | some k, some v => some (k, v)
+          | _, _ => none
+        | _ => none)
+    match parseAttrs fa parseFilterVal, parseAttrs pa parseParmsVal with
+    | some f, some p =>
+      let showN (o : Option Nat) : String := match o with | some n => toString n | none => "_"
+      let showP (o : Option Parms) : String :=
+        match o with
+        | none => "Z"
+        | some d =>
+          if d.predictor.isNone && d.colors.isNone && d.columns.isNone && d.bpc.isNone then "Z"
+          else "D" ++ showN d.predictor ++ "." ++ showN d.colors ++ "." ++ showN d.columns ++ "." ++ showN d.bpc
+      let r := streamFilters f p
+      if r.isEmpty then "[]" else ",".intercalate (r.map (fun q => hexOrDash q.1 ++ "/" ++ showP q.2))
+    | _, _ => "bad-op"
+  | ["lenval", objs, v] =>
+    -- objs: "-" or id:i<int> / id:r<id> / id:o separated by commas; v: none | i<int> | r<id> | o
+    let parseObj (s : String) : Option LenObj :=
+      match s.toList with
+      | 'i' :: r => (String.ofList r).toInt?.map LenObj.int
+      | 'r' :: r => (String.ofList r).toNat?.map LenObj.ref
+      | ['o'] => some LenObj.other
+      | _ => none
+    let table : Option (List (Nat × LenObj)) :=
+      if objs == "-" then some []
+      else (objs.splitOn ",").mapM (fun e =>
+        match e.splitOn ":" with
+        | [i, o] => match i.toNat?, parseObj o with
+          | some i, some o => some (i, o)
+          | _, _ => none
+        | _ => none)
+    let val : Option (Option LenObj) := if v == "none" then some none else (parseObj v).map some
+    match table, val with
+    | some t, some x =>
+      match lengthValue t x with
+      | none => "none"
+      | some n => toString n
+    | _, _ => "bad-op"
+  | ["streamx", fb, pos, len, h] =>
+    match pos.toNat?, (if len == "none" then some none else len.toInt?.map some), bytesOfHex h with
+    | some pos, some len, some d =>
+      match streamRead (fb == "1") d pos len with
+      | .ok (data, e) => "B " ++ hexOrDash data ++ " " ++ toString e
+      | .error e => "E " ++ e.name
+    | _, _, _ => "bad-op"
   | ["stream", pos, len, h] =>
     match pos.toNat?, len.toNat?, bytesOfHex h with
     | some pos, some len, some d => showRes (streamPayload d pos len)
